@@ -13,8 +13,9 @@ import concurrent.futures as cf
 import lib
 from lib import Ctx, WORK, VERIF
 
-DUMP = os.path.join(WORK, "dump")
+SHARED_DUMP = os.path.join(WORK, "dump")
 CW = os.path.join(WORK, "c09")
+DUMP = os.path.join(CW, "dump")      # private snapshot: other checks rewrite work/dump (non-atomically) while we run
 AVM = os.path.join(VERIF, "ocaml", "_build", "avm_tree")
 NSHARDS = 16
 CONTENT_KEYED = re.compile(r"=[0-9]+:[0-9a-f]{16}")
@@ -159,6 +160,57 @@ def files_of_case(text):
     return res
 
 
+def private_binaries(avh):
+    """private copies of the two runners: other checks rebuild harness/target/debug/avh and ocaml/_build/avm_tree
+    while this one runs"""
+    import shutil
+    global AVM
+    os.makedirs(CW, exist_ok=True)
+    out = []
+    for src, name in ((avh, "avh_c09"), (os.path.join(VERIF, "ocaml", "_build", "avm_tree"), "avm_tree_c09")):
+        dst = os.path.join(CW, name)
+        for attempt in range(5):
+            try:
+                tmp = dst + ".tmp%d" % os.getpid()
+                shutil.copy2(src, tmp)
+                os.replace(tmp, dst)
+                break
+            except OSError:
+                time.sleep(0.5)
+        out.append(dst if os.path.exists(dst) else src)
+    AVM = out[1]
+    return out[0]
+
+
+def snapshot_dump(ctx, avh):
+    """copy the translator's text dump into a private directory and make sure the copy is complete (both runners can
+    load it); retried, because a concurrently running check may be rewriting the shared files"""
+    import shutil
+    os.makedirs(DUMP, exist_ok=True)
+    probe = os.path.join(CW, "probe_script.txt")
+    open(probe, "w").write("SCRIPT 0\nPATHS-EMPTY\nOP new_model\n")
+    last = ""
+    for attempt in range(8):
+        try:
+            for f in os.listdir(SHARED_DUMP):
+                if f.endswith(".txt"):
+                    shutil.copyfile(os.path.join(SHARED_DUMP, f), os.path.join(DUMP, f))
+        except OSError as ex:
+            last = str(ex)
+            time.sleep(0.5)
+            continue
+        rc1, o1, _ = lib.run([AVM, DUMP, probe], WORK, 120)
+        rc2, o2, _ = lib.run([avh, "tree", "run", DUMP, probe], WORK, 120)
+        a = [l for l in o1.split("\n") if l.startswith("S ")]
+        b = [l for l in o2.split("\n") if l.startswith("S ")]
+        if rc1 == 0 and rc2 == 0 and a and a == b:
+            return True
+        last = (o1[-200:] + " | " + o2[-200:])
+        time.sleep(0.7)
+    ctx.oblige("setup:dump-snapshot", False, "the table dump could not be read consistently: " + last)
+    return False
+
+
 # ------------------------------------------------------------------------------------------ streams
 def gen_streams(ctx, avh, tier, seed):
     """generic load stream + merge cases/scripts; returns paths and generator statistics"""
@@ -260,6 +312,14 @@ def load_half(ctx, tier, seed, avh=None, streams=None, oracle_result=None):
     if not avh:
         return {"ok": False, "checked": 0, "violations": [], "known": {}}
     if streams is None:
+        # called from another check (C11): build what is needed, work on private copies
+        rcb, bo, _ = lib.run([os.path.join(VERIF, "ocaml", "build_tree.sh")], timeout=1800)
+        ctx.oblige("build:tree-model-runner(for the dump probe)", rcb == 0, bo[-800:] if rcb else "")
+        if rcb != 0:
+            return {"ok": False, "checked": 0, "violations": [], "known": {}}
+        avh = private_binaries(avh)
+        if not snapshot_dump(ctx, avh):
+            return {"ok": False, "checked": 0, "violations": [], "known": {}}
         streams = gen_streams(ctx, avh, tier, seed)
     g_script, cases, m_script, gstats, mstats = streams
     rc, out, _ = lib.harness_run(avh, ["merge", "c11", DUMP, g_script], timeout=1500)
@@ -326,7 +386,9 @@ def run(tier, seed, replay_obj=None):
     ctx.oblige("build:tree-model-runner(extraction of Tree/*.v incl. Load.v, ocaml)", rc == 0, bout[-1500:] if rc else "")
     prop_fail = []
     corr_details = []
-    if avh and rc == 0 and os.path.isdir(DUMP):
+    if avh and rc == 0:
+        avh = private_binaries(avh)
+    if avh and rc == 0 and os.path.isdir(SHARED_DUMP) and snapshot_dump(ctx, avh):
         if replay_obj is not None:
             return run_replay(ctx, avh, replay_obj)
         streams = gen_streams(ctx, avh, tier, seed)
